@@ -78,6 +78,19 @@ QUIRKS = [("abstract_first_nt", "abstract_all_match_first_nonterminal"),
           ("trailing_sep_node", "trailing_separator_node")]
 
 
+def ref_diff(g, cfg, text, textx_dump, ref_model):
+    """compare a textX dump with the reference model; returns None | ("known", label, detail) | ("new", kind, detail)"""
+    df = D.diff(textx_dump, D.dump_ref(ref_model))
+    if not df:
+        return None
+    detail = f"at {df[1]}: textX {df[2]} reference"
+    for quirk, label in QUIRKS:
+        res2, _ = peg.parse(g, cfg, text, quirks=(quirk,))
+        if res2[0] == "ok" and D.diff(textx_dump, D.dump_ref(res2[1])) is None:
+            return ("known", label, detail)
+    return ("new", df[0], detail)
+
+
 def engine_shape(g):
     """names the shape of a recorded *engine* (Arpeggio) finding present in the grammar, or 'plain'.
     The generator keeps these shapes out by construction; they reach the check through replay files only."""
